@@ -15,7 +15,7 @@ import proto
 RULE = ('generated ledgers x every summary function (none, units, cost) x FROM clauses (filters, OPEN / CLOSE / CLEAR) x WHERE '
         'conditions x account patterns: the result (description and rows) of BALANCES / JOURNAL is compared with the result of '
         'the SELECT statement the property names, written out as text; PRINT [FROM ...] output is compared with the filtered '
-        'directives in ledger order and re-loaded with the Beancount loader and compared structurally with them.  '
+        'directives in ledger order and re-loaded with the Beancount loader and compared structurally with them; the last column of every register is re-computed as the running sum of its position column; BALANCES order on a ledger with renamed root accounts; PRINT conditions of non-boolean type and on tags / links (evaluated directly on the directives).  '
         'Non-trivial = result has at least two rows / directives; distinct = distinct (ledger, statement).')
 ASSUMPTIONS = ['"loads back to equal directives" is a property of Beancount\'s printer and loader: correspondence only, not proved',
                'account patterns are inserted into the template text by string interpolation: patterns containing a double quote are outside the domain']
